@@ -475,6 +475,42 @@ theorem same_all {cfg : RunId → Cfg} {fs0 : FS} {b k : Nat} (order : List RunI
       · left; rw [runToEnd_loc_ne cfg s 6 hra]; exact ⟨res, hres⟩
       · right; simpa [hra] using hmem
 
+/-- next local state for the run-local steps -/
+def localNext (c : Cfg) (l : Local) : Local :=
+  match l.pc with
+  | .rename i fd => { l with pc := .render i fd, tag := some i }
+  | .render i fd => { l with pc := if fd then .write i else .readback i, code := some ⟨c.kern, c.base, l.tag⟩ }
+  | .close i => { l with pc := .done i .wrote }
+  | .compare i got => { l with pc := .done i (if got = l.code then .reused else .failed) }
+  | _ => l
+
+theorem step_local (cfg : RunId → Cfg) (s : State) (r : RunId) (hl : (s.loc r).pc.isLocal = true) :
+    step cfg s r = s.setLoc r (localNext (cfg r) (s.loc r)) := by
+  unfold step localNext
+  simp only []
+  split <;> rename_i hpc <;> simp [hpc, PC.isLocal] at hl ⊢
+
+theorem setLoc_comm (s : State) {r r' : RunId} (l l' : Local) (h : r ≠ r') :
+    (s.setLoc r l).setLoc r' l' = (s.setLoc r' l').setLoc r l := by
+  simp only [State.setLoc]
+  congr 1
+  funext x
+  by_cases h1 : x = r <;> by_cases h2 : x = r' <;> simp [h1, h2] <;>
+    (intro e; first | exact absurd e h | exact absurd e.symm h)
+
+theorem step_setLoc_other (cfg : RunId → Cfg) (s : State) {r r' : RunId} (l : Local) (h : r ≠ r') :
+    step cfg (s.setLoc r l) r' = (step cfg s r').setLoc r l := by
+  have hne : r' ≠ r := fun e => h e.symm
+  unfold step
+  simp only [setLoc_loc_ne _ _ hne, setLoc_fs]
+  split <;> (try split) <;>
+    first
+    | rfl
+    | exact setLoc_comm _ _ _ h
+    | (simp only [State.setFile, State.setLoc]; congr 1; funext x
+       by_cases h1 : x = r <;> by_cases h2 : x = r' <;> simp [h1, h2] <;>
+         (intro e; first | exact absurd e h | exact absurd e.symm h))
+
 /-! ## The property -/
 
 /-- **'multiple' scheme, any number of runs, any interleaving, any initial directory.**
@@ -667,5 +703,13 @@ example :
     let s := run (fun _ => ⟨.single, 1, 5⟩) (init emptyFS) (seqSchedule [2, 0, 1])
     (s.loc 2).pc = .done 0 .wrote ∧ (s.loc 0).pc = .done 0 .reused ∧ (s.loc 1).pc = .done 0 .reused ∧
     (s.fs ⟨1, 0⟩).map (·.writers) = some [2] := by decide
+
+/-- Run-local steps commute with the steps of every other run: the reduced enumeration of interleavings
+(local steps glued to the preceding file-system step) reaches the same states as the full one. -/
+theorem C29_local_commutes (cfg : RunId → Cfg) (s : State) (r r' : RunId) (hne : r ≠ r')
+    (hl : (s.loc r).pc.isLocal = true) :
+    step cfg (step cfg s r) r' = step cfg (step cfg s r') r := by
+  have hl' : ((step cfg s r').loc r).pc.isLocal = true := by rw [step_loc_ne cfg s hne]; exact hl
+  rw [step_local cfg s r hl, step_local cfg _ r hl', step_loc_ne cfg s hne, step_setLoc_other cfg s _ hne]
 
 end C29
